@@ -100,7 +100,7 @@ def build(chk):
               else:
                   kind = 'relax' if P.choose(2) == 0 else 'restore'
                   tid = TARGETS[P.choose(len(TARGETS))]
-              reason = f'r{step}'
+              reason = '' if step == 0 else f'r{step}'     # the first operation carries an empty reason string (legal): a constraint relaxed with it is still a removed constraint
               ops.append((kind, tid, reason))
               before = rd.instance(inst)
               before_clone = deep_clone(inst)
